@@ -528,6 +528,22 @@ theorem c13_x_seqqlParseTokenRange : SV.Extracted.C13.seqqlParseTokenRange =
 /-- the range ends reach the pattern package as the literal's bytes: no statement between the lexer's value and
 the term alters it -/
 theorem c13_x_legacyParseRangeTerm : SV.Extracted.C13.legacyParseRangeTerm =
-    ["builder := singleTermBuilder{}", "if !tp.eof() && tp.cur() == '\"'", "quoted = true", "err = tp.parseQuotedTerms(&builder)", "err = tp.parseTerms(&builder)", "if err != nil", "return err", "*term = builder.getTerm()", "if term.Data == \"\" && !quoted", "if tp.eof()", "return tp.errorEOF(\"range bounding term\")", "return tp.errorUnexpectedSymbol(`instead of range bounding term`)", "return nil"] := rfl
+    ["builder := singleTermBuilder{caseSensitive: caseSensitive}", "if !tp.eof() && tp.cur() == '\"'", "quoted = true", "err = tp.parseQuotedTerms(&builder)", "err = tp.parseTerms(&builder)", "if err != nil", "return err", "*term = builder.getTerm()", "if term.Data == \"\" && !quoted", "if tp.eof()", "return tp.errorEOF(\"range bounding term\")", "return tp.errorUnexpectedSymbol(`instead of range bounding term`)", "return nil"] := rfl
+
+/-- one `DiskTokenTableBlock` record per field is written (`TableLoader.load` keeps one record per field name) -/
+theorem c13_x_writeTokenTableBlocks : SV.Extracted.C13.writeTokenTableBlocks =
+    ["verifhook.Point(\"seal.sec\", 4)", "former := w.NewBlockFormer(\"token_table\", consts.RegularBlockSize)", "opts := []disk.FlushOption{disk.WithZstdCompressLevel(zstdCompressLevel)}", "push := func(block *DiskTokenTableBlock) error { block.pack(former.Packer()) if _, err := former.FlushIfNeeded(opts...); err != nil { return err } return nil }", "block.pack(former.Packer())", "if _, err := former.FlushIfNeeded(opts...); err != nil", "_, err := former.FlushIfNeeded(opts...)", "return err", "return nil", "if err := generateBlocks(push); err != nil", "err := generateBlocks(push)", "return err", "verifhook.Point(\"seal.sec\", 5)", "if err := former.FlushForced(opts...); err != nil", "err := former.FlushForced(opts...)", "return err", "w.writer.WriteEmptyBlock()", "w.stats = append(w.stats, former.GetStats())", "return nil"] := rfl
+
+/-- the sealed dictionary of a field is sorted with `bytes.Compare` - the order `bcmp` models and `BlocksOK` assumes -/
+theorem c13_x_getTIDsSortedByToken : SV.Extracted.C13.getTIDsSortedByToken =
+    ["if tids, ok := g.sortedTids[field]; ok", "tids, ok := g.sortedTids[field]", "return tids", "srcTIDs := tokenList.FieldTIDs[field]", "tids := append(make([]uint32, 0, len(srcTIDs)), srcTIDs...)", "sort.Sort( &valSort{ val: tids, lessFn: func(i int, j int) bool { a := tokenList.tidToVal[tids[i]] b := tokenList.tidToVal[tids[j]] return bytes.Compare(a, b) < 0 }, }, )", "a := tokenList.tidToVal[tids[i]]", "b := tokenList.tidToVal[tids[j]]", "return bytes.Compare(a, b) < 0", "g.sortedTids[field] = tids", "return tids"] := rfl
+
+/-- `MaxVal` of an entry is the whole last token of its run -/
+theorem c13_x_createTokenTableEntry : SV.Extracted.C13.createTokenTableEntry =
+    ["size := len(t.tokens)", "return &token.TableEntry{ StartIndex: startIndex, StartTID: t.startTID, ValCount: uint32(size), BlockIndex: blockIndex, MaxVal: string(t.tokens[size-1]), }"] := rfl
+
+/-- a token table record = field name, entry count, the entries -/
+theorem c13_x_tokenTableBlockPack : SV.Extracted.C13.tokenTableBlockPack =
+    ["p.PutStringWithSize(t.field)", "p.PutUint32(uint32(len(t.entries)))", "range _, entry := t.entries", "entry.Pack(p)"] := rfl
 
 end SV.Props.C13
